@@ -11,6 +11,7 @@ from sa.pm import FuncInfo, call_name, norm, self_attr, walk_local_ordered
 from sa.report import Ob, rule
 
 from .common import attr_stores, ob, strip_ret, traces, xnorm
+from .common import expand as expand_
 
 QH = 'zeroconf._handlers.query_handler.QueryHandler'
 QR = 'zeroconf._handlers.query_handler._QueryResponse'
@@ -189,6 +190,13 @@ def route(ctx: Any) -> List[Ob]:
                 tail[2] = want_tail[2]
             good = good and tail == want_tail
         obs.append(ob(R, ff, f'{callee}(..., {", ".join(want_tail)})', 'source address, port, transport and flow/scope are handed on unchanged (own parameters, same positions)', good))
+    # the receiving transport is the protocol object's own transport: one protocol object per socket
+    from .c16 import per_socket_protocol
+
+    obs.append(per_socket_protocol(ctx, R, 'each socket has its own protocol object whose `transport` is that socket, so `self.transport` is the receiving socket'))
+    cm = prog.func('zeroconf._listener.AsyncListener.connection_made')
+    st = [s_ for t, s_ in attr_stores(cm.node) if self_attr(t, cm.params[0]) == 'transport']
+    obs.append(ob(R, cm, st[0] if st else 'self.transport = ...', 'the protocol remembers the transport it was connected to', len(st) == 1 and cm.params[1] in norm(expand_(cm, st[0].value))))
     return obs
 
 
